@@ -65,6 +65,93 @@ func (c *fragCtx) effectCall(s ast.Stmt) (string, []ast.Expr, bool) {
 	return id.Name, call.Args, true
 }
 
+// deleteCall recognises the statement `delete(m, k)` on a map variable m.
+func (c *fragCtx) deleteCall(s ast.Stmt) (string, ast.Expr, bool) {
+	es, ok := s.(*ast.ExprStmt)
+	if !ok {
+		return "", nil, false
+	}
+	call, ok := es.X.(*ast.CallExpr)
+	if !ok || len(call.Args) != 2 {
+		return "", nil, false
+	}
+	id, ok := call.Fun.(*ast.Ident)
+	if !ok || id.Name != "delete" {
+		return "", nil, false
+	}
+	if _, isB := c.f.pkg.TypesInfo.Uses[id].(*types.Builtin); !isB {
+		return "", nil, false
+	}
+	m, ok := call.Args[0].(*ast.Ident)
+	if !ok {
+		return "", nil, false
+	}
+	if _, isMap := c.typeOf(m).Underlying().(*types.Map); !isMap {
+		return "", nil, false
+	}
+	return m.Name, call.Args[1], true
+}
+
+// sortCall recognises exactly `sort.Slice(X, func(i, j int) bool { return X[i] < X[j] })` for a slice variable X of
+// integers: X sorted in ascending order (assumed semantics of the library call: `goSortAsc`).
+func (c *fragCtx) sortCall(s ast.Stmt) (string, bool) {
+	es, ok := s.(*ast.ExprStmt)
+	if !ok {
+		return "", false
+	}
+	call, ok := es.X.(*ast.CallExpr)
+	if !ok || len(call.Args) != 2 {
+		return "", false
+	}
+	sel, ok := call.Fun.(*ast.SelectorExpr)
+	if !ok || sel.Sel.Name != "Slice" {
+		return "", false
+	}
+	pid, ok := sel.X.(*ast.Ident)
+	if !ok {
+		return "", false
+	}
+	pn, ok := c.f.pkg.TypesInfo.Uses[pid].(*types.PkgName)
+	if !ok || pn.Imported().Path() != "sort" {
+		return "", false
+	}
+	xs, ok := call.Args[0].(*ast.Ident)
+	fl, ok2 := call.Args[1].(*ast.FuncLit)
+	if !ok || !ok2 || c.leanTypeOf(xs) != "(List Int)" {
+		return "", false
+	}
+	var names []string
+	for _, f := range fl.Type.Params.List {
+		for _, n := range f.Names {
+			names = append(names, n.Name)
+		}
+	}
+	if len(names) != 2 || len(fl.Body.List) != 1 {
+		return "", false
+	}
+	ret, ok := fl.Body.List[0].(*ast.ReturnStmt)
+	if !ok || len(ret.Results) != 1 {
+		return "", false
+	}
+	be, ok := ret.Results[0].(*ast.BinaryExpr)
+	if !ok || be.Op != token.LSS {
+		return "", false
+	}
+	isAt := func(e ast.Expr, i string) bool {
+		ie, ok := e.(*ast.IndexExpr)
+		if !ok {
+			return false
+		}
+		a, ok1 := ie.X.(*ast.Ident)
+		b, ok2 := ie.Index.(*ast.Ident)
+		return ok1 && ok2 && a.Name == xs.Name && b.Name == i
+	}
+	if !isAt(be.X, names[0]) || !isAt(be.Y, names[1]) {
+		return "", false
+	}
+	return xs.Name, true
+}
+
 func (c *fragCtx) isPanicCall(s ast.Stmt) bool {
 	es, ok := s.(*ast.ExprStmt)
 	if !ok {
@@ -129,6 +216,12 @@ func (c *fragCtx) assignedIn(stmts []ast.Stmt) (vars []string, hasRet bool) {
 			}
 			if _, _, ok := c.effectCall(x); ok {
 				add(&ast.Ident{Name: "st_"})
+			}
+			if m, _, ok := c.deleteCall(x); ok {
+				add(&ast.Ident{Name: m})
+			}
+			if name, ok := c.sortCall(x); ok {
+				add(&ast.Ident{Name: name})
 			}
 		case *ast.RangeStmt:
 			if x.Tok == token.DEFINE {
@@ -347,6 +440,12 @@ func (c *fragCtx) stmts(list []ast.Stmt, k func() string) string {
 				parts = append(parts, c.expr(a))
 			}
 			return emit("let st_ := (" + strings.Join(parts, " ") + " st_)\n")
+		}
+		if m, key, ok := c.deleteCall(x); ok {
+			return emit("let " + lv(m) + " := (mapDel " + lv(m) + " " + c.expr(key) + ")\n")
+		}
+		if name, ok := c.sortCall(x); ok {
+			return emit("let " + lv(name) + " := (goSortAsc " + lv(name) + ")\n")
 		}
 		return c.fail("expression statement")
 	case *ast.IncDecStmt:
